@@ -180,24 +180,25 @@ def run_transfer_case(prog, params):
             if o.tag in ('panic', 'deadlock'):
                 findings.append(make_finding('C13', key_base + '|%s:%s' % (o.tag, o.where or '?'), '%s panics: %s' % (op, o.msg), sr))
                 return findings
-            if 'C11' in props and status != 'unspecified':
+            ctag = 'C11' if 'C11' in props else ('C01' if 'C01' in props else None)
+            if ctag and status != 'unspecified':
                 if status == 'ok' and not o.ok:
-                    findings.append(make_finding('C11', key_base + '|unexpected_err:%s' % o.kind, '%s %s -> %s must succeed but returned %s' % (op, src, dst, o.brief()), sr))
+                    findings.append(make_finding(ctag, key_base + '|unexpected_err:%s' % o.kind, '%s %s -> %s must succeed but returned %s' % (op, src, dst, o.brief()), sr))
                     return findings
                 if status == 'err' and o.ok:
-                    findings.append(make_finding('C11', key_base + '|unexpected_ok', '%s %s -> %s succeeded although %s' % (op, src, dst, why), sr))
+                    findings.append(make_finding(ctag, key_base + '|unexpected_ok', '%s %s -> %s succeeded although %s' % (op, src, dst, why), sr))
                     nts, ntd = None, None
                 if status == 'ok' and op == 'copy_dir' and o.value != ret:
-                    findings.append(make_finding('C11', key_base + '|wrong_count', 'copy_dir returned %s, %d entries were to be copied' % (o.value, ret), sr))
+                    findings.append(make_finding(ctag, key_base + '|wrong_count', 'copy_dir returned %s, %d entries were to be copied' % (o.value, ret), sr))
                 # the statement demands "no side effects" for a refused existing destination; other failures
                 # (missing source, missing destination parent) must leave the source untouched
                 strict = status == 'ok' or why == 'destination exists'
                 if nts is not None and (strict or not same):
                     what = 'post_state' if status == 'ok' else 'changed_on_failure'
                     nf = len(findings)
-                    snap_s = check_post_state(sr, u, nts, key_base + '|source_fs', findings, what, prefix='S_', prop='C11')
+                    snap_s = check_post_state(sr, u, nts, key_base + '|source_fs', findings, what, prefix='S_', prop=ctag)
                     if not same and strict:
-                        snap_d = check_post_state(sr, u, ntd, key_base + '|dest_fs', findings, what, prefix='D_', prop='C11')
+                        snap_d = check_post_state(sr, u, ntd, key_base + '|dest_fs', findings, what, prefix='D_', prop=ctag)
                     # entries outside the universe (overlay bookkeeping) are C10's subject, not C11's
                     findings[nf:] = [f_ for f_ in findings[nf:] if ':foreign' not in f_.key]
             if 'C03' in props:
